@@ -1,5 +1,5 @@
 (* operations of the per-format layout models (NWChem electron section, ...) *)
-From BSE Require Import Model.Val Model.Lut Model.Basis Model.Nwchem Model.G94 Model.Turbomole Model.NwchemEcp Model.TurbomoleEcp Model.GamessUs Model.GamessUsEcp Model.Libmol Model.Dalton Model.DaltonEcp Model.Cp2k Model.Cp2kEcp Model.Genbas Model.GenbasEcp Model.Molpro Model.Demon2k Model.Demon2kEcp Model.Molcas Model.MolcasEcp Model.Veloxchem Model.Orca Model.Pqs Model.GamessUk Model.Jaguar Model.Fhiaims Model.Bdf.
+From BSE Require Import Model.Val Model.Lut Model.Basis Model.Nwchem Model.G94 Model.Turbomole Model.NwchemEcp Model.TurbomoleEcp Model.GamessUs Model.GamessUsEcp Model.Libmol Model.Dalton Model.DaltonEcp Model.Cp2k Model.Cp2kEcp Model.Genbas Model.GenbasEcp Model.Molpro Model.Demon2k Model.Demon2kEcp Model.Molcas Model.MolcasEcp Model.Veloxchem Model.Orca Model.Pqs Model.GamessUk Model.Jaguar Model.Fhiaims Model.Bdf Model.Ricdwrap Model.Acesii Model.CrystalW.
 Definition dec_zshells (v : val) : res (list (Z * list sshell)) :=
   do l <- as_list v;
   mapM (fun x => match x with
@@ -100,6 +100,11 @@ Definition ops_formats (op : string) (args : list val) : option (res val) :=
   | "bdf_write_all", [els; ecps] => Some (do e <- dec_zshells els; do c <- dec_zecps ecps; do t <- bdf_write_all e c; ok (VStr t))
   | "d2k_write_all", [VBool sph; VStr name; els; ecps] => Some (do e <- dec_zeshells els; do c <- dec_zecps ecps; do t <- d2k_write_all sph name e c; ok (VStr t))
   | "d2k_read_all", [ls] => Some (do l <- dec_strs ls; do r <- d2k_read_all l; ok (enc_znwels r))
+  | "ricd_write_all", [order; els] => Some (do o <- dec_strs order; do e <- dec_mels els;
+                                           do t <- ricdwrap_write_all (sord_of o) (map (fun ze => (fst ze, fst (snd ze))) e); ok (VStr t))
+  | "crystal_write_all", [els] => Some (do e <- dec_mels els; do t <- crystal_write_all e; ok (VStr t))
+  | "acesii_write_all", [VStr name; VStr desc; els; ecps] =>
+      Some (do e <- dec_zshells els; do c <- dec_zecps ecps; do t <- acesii_write_all name desc e c; ok (VStr t))
   | "mcas_write_all", [order; els] => Some (do o <- dec_strs order; do e <- dec_mels els; do t <- mcas_write_all (sord_of o) e; ok (VStr t))
   | "mcasl_write_all", [order; VStr name; metas; els] =>
       Some (do o <- dec_strs order; do ms <- dec_metas metas; do e <- dec_mels els;
